@@ -128,7 +128,7 @@ theorem cvec_one_element_per_index {c : Cfg} {s : State} (h : R c s) (T i j : Na
     have hnd := inv.b.curNodup
     obtain ⟨h1, e1⟩ := List.getElem?_eq_some_iff.mp hb
     obtain ⟨h2, e2⟩ := List.getElem?_eq_some_iff.mp hb'
-    exact (List.Nodup.getElem_inj_iff hnd).mp (e1.trans e2.symm)
+    exact (List.getElem_inj (h₀ := h1) (h₁ := h2) hnd).mp (e1.trans e2.symm)
   exact index_inj c i j hi hj hidx ho.symm
 
 /-! ### built once, destroyed once -/
@@ -167,6 +167,11 @@ theorem cvec_loser_deletes_own_blocks {c : Cfg} {s s' : State} (h : R c s) (t nt
   have hcnt := count_nodup (inv.b.madeNodup t nt made hspec)
   have hmade : ∀ b ∈ made, s.ctorN b = 1 ∧ s.dtorN b = 0 ∧ s.freeN b = 0 ∧ ∀ T, s.pub T = true → b ∉ s.tbl T :=
     fun b hb => cvec_constructed_before_publication h t nt old need made k hpc b hb
+  have hfreshNot : ∀ b ∈ made, b ∉ madeIds (deleted s made) (need - (s.tbl s.cur).length) := by
+    intro b hb hm
+    have h1 := inv.b.madeLe t nt made hspec b hb
+    have h2 : s.nalloc < b := ((mem_madeIds _ _ b).mp hm).1
+    omega
   have hts := stepThread_TStep hst
   cases hts
   case casWin _ _ _ _ _ hpc' hc => rw [hpc] at hpc'; cases hpc'; exact absurd hc hlose
@@ -174,25 +179,26 @@ theorem cvec_loser_deletes_own_blocks {c : Cfg} {s s' : State} (h : R c s) (t nt
     rw [hpc] at hpc'; cases hpc'
     refine ⟨fun b hb => ?_, fun b hb => ?_⟩
     · obtain ⟨h1, h2, h3, h4⟩ := hmade b hb
-      simp only [casLoseDone, finish, freedTables, deleted, hcnt, hb, if_true]
+      have hc1 : made.count b = 1 := by rw [hcnt, if_pos hb]
+      show s.ctorN b = 1 ∧ s.dtorN b + made.count b = 1 ∧ s.freeN b + made.count b = 1 ∧ _
       exact ⟨h1, by omega, by omega, h4⟩
-    · simp only [casLoseDone, finish, freedTables, deleted, hcnt, hb, if_false, Nat.add_zero, and_self]
+    · have hc0 : made.count b = 0 := by rw [hcnt, if_neg hb]
+      show s.dtorN b + made.count b = s.dtorN b ∧ s.freeN b + made.count b = s.freeN b
+      omega
   case casLoseRetry nt' old' need' made' k' hpc' hc hl =>
     rw [hpc] at hpc'; cases hpc'
-    have hfreshNot : ∀ b ∈ made, b ∉ madeIds (deleted s made) (need - (s.tbl s.cur).length) := by
-      intro b hb hm
-      have h1 := inv.b.madeLe t nt made hspec b hb
-      have h2 := ((mem_madeIds _ _ b).mp hm).1
-      simp only [deleted] at h2; omega
     refine ⟨fun b hb => ?_, fun b hb => ?_⟩
     · obtain ⟨h1, h2, h3, h4⟩ := hmade b hb
-      simp only [casLoseRetry, created, deleted, hcnt, hb, if_true]
+      have hc1 : made.count b = 1 := by rw [hcnt, if_pos hb]
       have hn := hfreshNot b hb
-      simp only [deleted] at hn
-      simp only [hn, if_false]
+      show (if b ∈ madeIds (deleted s made) (need - (s.tbl s.cur).length) then s.ctorN b + 1 else s.ctorN b) = 1 ∧
+        s.dtorN b + made.count b = 1 ∧ s.freeN b + made.count b = 1 ∧ _
+      rw [if_neg hn]
       exact ⟨h1, by omega, by omega, h4⟩
-    · simp only [casLoseRetry, created, deleted, hcnt, hb, if_false, Nat.add_zero, and_self]
-  all_goals (rename_i hpc'; rw [hpc] at hpc'; cases hpc')
+    · have hc0 : made.count b = 0 := by rw [hcnt, if_neg hb]
+      show s.dtorN b + made.count b = s.dtorN b ∧ s.freeN b + made.count b = s.freeN b
+      omega
+  all_goals (exfalso; simp_all)
 
 /-- at no time has an element been constructed twice, destroyed twice or without having been
 constructed, or its block freed otherwise than right after its elements' destruction -/
@@ -248,25 +254,38 @@ theorem retire_never_early_code (bits : Nat) {s : State} (h : R { bits := bits }
 
 /-- sequential histories: calls never overlap (a call starts only when every thread is idle) -/
 inductive SeqStep (c : Cfg) : State → State → Prop
-  | act (s s' : State) : Step c s s' → (∀ t i, s' ≠ callEnsure c s t i) → SeqStep c s s'
-  | call (s s' : State) : (∀ u, s.pc u = .idle) → Step c s s' → SeqStep c s s'
+  | act (s : State) (t : Nat) (inp : Inp) (s' : State) (ls : List Act) : stepThread c s t inp = some (s', ls) → SeqStep c s s'
+  | ensure (s : State) (t i : Nat) : (∀ u, s.pc u = .idle) → s.destroyed = false → SeqStep c s (callEnsure c s t i)
+  | reserve (s : State) (t n : Nat) : (∀ u, s.pc u = .idle) → s.destroyed = false → SeqStep c s (callReserve c s t n)
+  | range (s : State) (t b e : Nat) : (∀ u, s.pc u = .idle) → s.destroyed = false → b ≤ e → SeqStep c s (callRange c s t b e)
+  | snap (s : State) (t : Nat) (k : SKont) : (∀ u, s.pc u = .idle) → s.destroyed = false → SeqStep c s (callSnap s t k)
+  | gc (s : State) (t : Nat) : (∀ u, s.pc u = .idle) → s.destroyed = false → SeqStep c s (callGc s t)
+  | destroy (s : State) (t : Nat) : (∀ u, s.pc u = .idle) → s.destroyed = false → SeqStep c s (callDestroy s t)
+  | tick (s : State) (d : Nat) : SeqStep c s (tick s d)
 
-theorem SeqStep.toStep {c : Cfg} {s s' : State} (h : SeqStep c s s') : Step c s s' := by
-  cases h with
-  | act _ _ hs _ => exact hs
-  | call _ _ _ hs => exact hs
+theorem seq_reachable {c : Cfg} {s : State} (h : Reachable Init (SeqStep c) s) : R c s := by
+  induction h with
+  | base hi => exact .base hi
+  | tail _ hst ih =>
+    refine .tail ih ?_
+    have nox : ∀ {s : State}, (∀ u, s.pc u = .idle) → ∀ u, s.pc u ≠ .xLoad := fun hi u => by rw [hi u]; simp
+    cases hst with
+    | act => rename_i h; exact .act _ _ _ _ _ h
+    | ensure t i hi hd => exact .ensure _ t i (hi t) hd (nox hi)
+    | reserve t n hi hd => exact .reserve _ t n (hi t) hd (nox hi)
+    | range t b e hi hd hbe => exact .range _ t b e (hi t) hd (nox hi) hbe
+    | snap t k hi hd => exact .snap _ t k (hi t) hd (nox hi)
+    | gc t hi hd => exact .gc _ t (hi t) hd (nox hi)
+    | destroy t hi hd => exact .destroy _ t hi hd
+    | tick d => exact .tick _ d
 
-/-- every sequential retire / gc history and every monotone clock history (including 16-bit wrap of
-the stamp and any starting time): a table is freed only two stamp units after its retirement.  For
-sequential histories this holds with and without the re-read (a failed CAS can only be spurious). -/
+/-- every sequential ensure / reserve / gc history and every monotone clock history (including 16-bit
+wrap of the stamp and any starting time): a table is freed only two stamp units (more than 64 s) after
+the growth that retired it, or by the destructor -/
 theorem retire_never_early_seq {c : Cfg} {s : State} (hc : c.reread = true)
     (h : Reachable Init (SeqStep c) s) (x g v : Nat)
     (hf : s.freedT x = some (some v)) (hg : s.supAt x = some g) : unitOf g + 2 ≤ unitOf v ∧ g + unitNs < v := by
-  have hr : R c s := by
-    induction h with
-    | base hi => exact .base hi
-    | tail _ hst ih => exact .tail ih hst.toStep
-  obtain ⟨h1, h2, _⟩ := retire_never_early hc hr x g v hf hg
+  obtain ⟨h1, h2, _⟩ := retire_never_early hc (seq_reachable h) x g v hf hg
   exact ⟨h1, h2⟩
 
 /-- A snapshot stays usable for 64 s after the growth that superseded it, gc() or not: while the
